@@ -438,9 +438,13 @@ pub fn make(plan: &str, seed: u64, count: usize, tier: &str, wave: u64) -> (Vec<
             specs.extend(leftrec_specs(seed, nl, wave, "l", &mut stats));
         }
         "memo" => {
-            let prof = Profile::by_name("memo").unwrap();
             let groups = (count / 4).max(1);
-            for (k, (g, idx)) in profile_grammars(&prof, seed, groups, wave, &mut stats).into_iter().enumerate() {
+            let mut base = profile_grammars(&Profile::by_name("memo").unwrap(), seed, groups - groups / 3, wave, &mut stats);
+            let nplain = base.len();
+            // a third of the groups mixes skipping / non-skipping callers of memoized rules
+            base.extend(profile_grammars(&Profile::by_name("memows").unwrap(), seed, groups / 3, wave, &mut stats));
+            for (k, (g, idx)) in base.into_iter().enumerate() {
+                let plan = if k >= nplain { "memows" } else { "memo" };
                 let bytes = rng_bytes(seed, "memo-mask", idx, 64);
                 let names: Vec<String> = g.normals().map(|n| n.name.clone()).collect();
                 let variants: Vec<(&str, Grammar)> = vec![
